@@ -11,6 +11,7 @@ import (
 	"regexp"
 	"sort"
 	"strings"
+	"sync"
 )
 
 type Sort string
@@ -162,6 +163,10 @@ func Eq(a, b Term) Term {
 	}
 	if a.S == b.S {
 		return TTrue
+	}
+	// two different literals (type tags, references, bit-vector constants)
+	if isLiteral(a.S) && isLiteral(b.S) {
+		return TFalse
 	}
 	return App(SBool, "=", a, b)
 }
@@ -497,6 +502,7 @@ func constTerm(c constant.Value, t types.Type, ex *Exec) Term {
 // ---- type tags ---------------------------------------------------------
 
 type tagTable struct {
+	mu     sync.Mutex // functions are executed concurrently
 	byName map[string]int
 	types  map[int]types.Type
 }
@@ -509,6 +515,8 @@ func typeKey(t types.Type) string { return types.TypeString(t, nil) }
 
 func (tt *tagTable) tag(t types.Type) int {
 	k := typeKey(t)
+	tt.mu.Lock()
+	defer tt.mu.Unlock()
 	if n, ok := tt.byName[k]; ok {
 		return n
 	}
@@ -547,3 +555,9 @@ func sanitize(s string) string {
 	}
 	return b.String()
 }
+
+var literalRe = regexp.MustCompile(`^(\d+|\(- \d+\)|\(_ bv\d+ \d+\)|#x[0-9a-fA-F]+|#b[01]+)$`)
+
+// isLiteral: a numeral or bit-vector constant in the canonical form the term
+// constructors produce (so two different strings denote different values).
+func isLiteral(s string) bool { return literalRe.MatchString(s) }
